@@ -437,6 +437,50 @@ try:
             fail({'policy file': 'deprecated directives', 'flag': flag}, out[:160], 'stdout is one well-formed JSON document', 'policy-json')
 finally:
     os.unlink(polfile.name)
+# the options as spelled on the command line (through process_commandline and main(), against a scripted server): status and findings are the
+# same under every spelling; JSON is one document under every minimum level.  (Which rendering a spelling selects is not part of the property:
+# '-nb' leaves the colours on because the colour switch looks for a literal '-n' argument, and the (rec) lines are sorted with their colour
+# codes, so coloured and plain reports order them differently -- observations, not violations.)
+def osrv():
+    return F.Server(['diffie-hellman-group14-sha1', 'curve25519-sha256'], ['ssh-rsa', 'ssh-ed25519'], ['aes128-cbc', 'aes128-ctr'], ['hmac-sha1', 'hmac-sha2-256-etm@openssh.com'],
+                    hostkeys={'ssh-rsa': F.rsa_blob(2048), 'ssh-ed25519': F.ed25519_blob()})
+def cli(args):
+    return F.run_main(args + ['--skip-rate-test', 'o.test'], F.FakeNet({'o.test': osrv()}))
+cases += 1
+o_st, o_out = cli(['-n'])
+o_find = findings_set(o_out)
+if not o_find or '\x1b[' in o_out:
+    fail({'argv': ['-n']}, {'findings': len(o_find), 'escape sequences': '\x1b[' in o_out}, 'a plain report without colour codes', 'cli-nocolor')
+for args in (['-n', '-b'], ['-n', '--batch'], ['-n', '-v'], ['-n', '--verbose'], ['-nb'], ['-nv'], ['-n', '-b', '-v'], [], ['--no-colors']):
+    cases += 1
+    st_, tx = cli(args)
+    if st_ != o_st or findings_set(tx) != o_find:
+        fail({'argv': args}, {'status': st_, 'differing findings': [x for x in findings_set(tx) if x not in o_find][:3] + [x for x in o_find if x not in findings_set(tx)][:3]}, {'status': o_st, 'findings': 'as with -n'}, 'cli-findings')
+for args, lvl in ((['-n', '-l', 'warn'], 'warn'), (['-n', '--level=warn'], 'warn'), (['-n', '-l', 'fail'], 'fail'), (['-n', '--level', 'fail'], 'fail'), (['-n', '-l', 'info'], 'info'), (['-n', '-b', '-l', 'warn'], 'warn')):
+    cases += 1
+    st_, tx = cli(args)
+    want = [x for x in o_find if RANK[x[2]] >= RANK[lvl]]
+    got = findings_set(tx)
+    if st_ != o_st or [x for x in got if x not in o_find] or [x for x in want if x not in got] or [x for x in got if RANK[x[2]] < RANK[lvl]]:
+        fail({'argv': args}, {'status': st_, 'findings below the level': [x for x in got if RANK[x[2]] < RANK[lvl]][:3], 'lost': [x for x in want if x not in got][:3]}, {'status': o_st, 'findings': 'exactly those at or above ' + lvl}, 'cli-level')
+docs = {}
+for args in (['-j'], ['-jj'], ['--json'], ['-n', '-j'], ['-j', '-b'], ['-j', '-l', 'warn'], ['-j', '-l', 'fail'], ['-jj', '--level=fail']):
+    cases += 1
+    st_, tx = cli(args)
+    try:
+        docs[tuple(args)] = json.loads(tx)
+    except Exception as e:
+        fail({'argv': args}, tx[:120], 'one well-formed JSON document', 'cli-json'); continue
+    d_ = docs[tuple(args)]
+    known = lambda c, n: n in DB[c]
+    jf = [x for x in json_findings(d_) if known(x[0], x[1]) and not x[3].startswith('available since')]
+    tf = [x for x in o_find if known(x[0], x[1]) and not x[3].startswith('available since')]
+    if st_ != o_st or jf != tf:
+        fail({'argv': args}, {'status': st_, 'differing findings': [x for x in jf if x not in tf][:3] + [x for x in tf if x not in jf][:3]}, {'status': o_st, 'findings': 'as in the text report'}, 'cli-json-findings')
+    if ('-jj' in args) != ('\n' in tx.strip()):
+        fail({'argv': args}, {'indented': '\n' in tx.strip()}, {'indented': '-jj' in args}, 'cli-json-indent')
+if len(set(json.dumps(d_, sort_keys=True) for d_ in docs.values())) > 1:
+    fail({'argv': [list(k) for k in docs]}, 'the JSON documents differ', 'one value whatever the other output options', 'cli-json-same')
 # byte-identical repeated audits, including under different hash seeds (a peer whose report carries a note listing several algorithms included)
 cases += 1
 STRICT = dict(kex=['curve25519-sha256', 'kex-strict-s-v00@openssh.com'], key=['ssh-ed25519'], enc=['chacha20-poly1305@openssh.com', 'aes256-cbc', 'aes128-cbc', '3des-cbc', 'aes128-ctr'],
